@@ -215,3 +215,20 @@ def replay_inspect_exit(w, obligation, expects):
             sys.path = old_path
     return {"reproduced": bool(problems), "detail": "; ".join(problems[:4]) or "import-time failures become LoadingError; sys.path restored",
             "signature": "inspect_exit:" + (problems[0] if problems else "ok")}
+
+
+def bounded():
+    """The native scenarios of all replays as one bounded tier (static loads of side-effecting / compiled / source-less / missing modules, inspection of
+    modules that raise or exit or tamper with sys.path, the sys_path context manager under every exception class)."""
+    out, cases = [], 0
+    for fn in (replay_sys_path, replay_dynamic_import, replay_static_load, replay_inspect_exit):
+        r = fn({}, "bounded", {})
+        cases += 1
+        if r.get("reproduced"):
+            out.append({"scenario": fn.__name__, "failure": r.get("detail"), "signature": r.get("signature")})
+    return {"cases": cases, "bad": out}
+
+
+if __name__ == "__main__":
+    import json
+    print(json.dumps(bounded()))
